@@ -320,6 +320,17 @@ def ref_assort(con, asn_desc, votes_for_contest):
 
 
 # ---- driving the library ---------------------------------------------------------------------------------------
+def rename_contests(es, mapping):
+    """Rename contest identifiers throughout an election spec (contests, card votes, manual-record votes)."""
+    es["contests"] = {mapping.get(k, k): v for k, v in es["contests"].items()}
+    for cd in es["cards"]:
+        cd["votes"] = {mapping.get(k, k): v for k, v in cd["votes"].items()}
+    for m in es["mvrs"].values():
+        if m.get("votes") is not None:
+            m["votes"] = {mapping.get(k, k): v for k, v in m["votes"].items()}
+    return es
+
+
 class Sim:
     """Builds the library objects for a spec, step by step (each step is a real library call)."""
 
